@@ -374,6 +374,9 @@ struct CommandBuilderOptions {
     action: ExecAction,
     env: HashMap<OsString, OsString>,
     limiters: LimiterCollection,
+    /// The limiters before anything was charged to them: with -I the initial
+    /// arguments that are really passed are the substituted ones.
+    empty_limiters: LimiterCollection,
     verbose: bool,
     close_stdin: bool,
     replace: Option<String>,
@@ -390,6 +393,7 @@ impl CommandBuilderOptions {
             ExecAction::Echo => vec![OsStr::new("echo")],
         };
 
+        let empty_limiters = limiters.clone();
         for arg in initial_args {
             limiters.try_arg(Argument {
                 arg: arg.to_owned(),
@@ -401,6 +405,7 @@ impl CommandBuilderOptions {
             action,
             env,
             limiters,
+            empty_limiters,
             verbose: false,
             close_stdin: false,
             replace,
@@ -423,7 +428,43 @@ impl CommandBuilder<'_> {
         }
     }
 
+    /// The initial arguments with every occurrence of the -I string replaced.
+    fn substitute(
+        initial_args: &[OsString],
+        replace_str: &str,
+        replacement: &OsStr,
+    ) -> Vec<OsString> {
+        let replacement = replacement.to_string_lossy();
+        initial_args
+            .iter()
+            .map(|arg| OsString::from(arg.to_string_lossy().replace(replace_str, &replacement)))
+            .collect()
+    }
+
     fn add_arg(&mut self, arg: Argument) -> Result<(), ExhaustedCommandSpace> {
+        // With -I the command line consists of the substituted initial
+        // arguments, which can be much larger than the line that was read:
+        // those are what has to fit (each one, and all of them together).
+        if let (Some(replace_str), ExecAction::Command(args)) =
+            (&self.options.replace, &self.options.action)
+        {
+            let mut limiters = self.options.empty_limiters.clone();
+            let substituted = Self::substitute(&args[1..], replace_str, &arg.arg);
+            for initial in std::iter::once(args[0].clone()).chain(substituted) {
+                if limiters
+                    .try_arg(Argument {
+                        arg: initial,
+                        kind: ArgumentKind::Initial,
+                    })
+                    .is_err()
+                {
+                    return Err(ExhaustedCommandSpace {
+                        arg,
+                        out_of_chars: true,
+                    });
+                }
+            }
+        }
         let arg = self.limiters.try_arg(arg)?;
         self.extra_args.push(arg.arg);
         Ok(())
@@ -440,14 +481,7 @@ impl CommandBuilder<'_> {
         if let Some(replace_str) = &self.options.replace {
             // Replace all occurrences in initial args with the extra arg,
             // Thanks to `MaxArgsCommandSizeLimiter`, we only process a single extra arg here.
-            let replacement = self.extra_args[0].to_string_lossy();
-            let initial_args: Vec<OsString> = initial_args
-                .iter()
-                .map(|arg| {
-                    let arg_str = arg.to_string_lossy();
-                    OsString::from(arg_str.replace(replace_str, &replacement))
-                })
-                .collect();
+            let initial_args = Self::substitute(initial_args, replace_str, &self.extra_args[0]);
 
             command
                 .args(&initial_args)
